@@ -9,6 +9,7 @@ from .. import wire
 from ..engine import ok, require
 from ..simkit import ADDRS, ServerRec, Sim, cfg, desc_semantic, ep_desc, install_random, make_sd, sd, sd_bytes, sent_entries, timings
 from ..vloop import RES
+from .c07 import ref_detect
 
 PID = "C11"
 RULE = (
@@ -49,6 +50,7 @@ def _case(draw):
     msgs = []
     for _ in range(draw(st.integers(1, 5))):
         msgs.append(dict(src=draw(st.integers(0, 1)), mc=draw(st.sampled_from([False, False, False, True])), dt=draw(st.sampled_from([0, 0, 0.001, 0.02, 0.1])),
+                         reset=draw(st.sampled_from([False, False, False, True])),
                          entries=draw(st.lists(_entry(), min_size=1, max_size=6))))
     return dict(insts=draw(st.lists(_inst(), max_size=3)), state=draw(st.sampled_from(["started", "started", "started", "never", "restarted", "stopped"])),
                 coll=draw(st.sampled_from([0, 0, 0.005])), msgs=msgs, dec=draw(st.lists(st.booleans(), max_size=8)),
@@ -106,10 +108,19 @@ def run_case(case):
         n0 = len(prot.transport.sent)
         stored = set()   # (subscriber, instance index, identity)
         sessions = {}
-        for m in case["msgs"]:
+        seen_sessions = {}
+        carry_exp, carry_opt, carry_t = collections.Counter(), collections.Counter(), []
+        msgs_ = case["msgs"]
+        for mi, m in enumerate(msgs_):
             src = ADDRS[m["src"] % 2]
             mc = bool(m["mc"])
-            sid = sessions[(src, mc)] = sessions.get((src, mc), 0) + 1
+            sid = sessions[(src, mc)] = 1 if m.get("reset") else sessions.get((src, mc), 0) + 1
+            rebooted = ref_detect(seen_sessions, (src, mc), True, sid)
+            if rebooted:
+                # the subscriber rebooted: what it had subscribed is gone (applied before the entries of this message, C06)
+                for k_ in [k_ for k_ in stored if k_[0] == src]:
+                    stored.discard(k_)
+                feats["reboot"] += 1
             entries = [e for e in m["entries"] if sum(1 for i in insts if _matches(i, e)) <= 1][:6]
             if not entries:
                 continue
@@ -166,6 +177,21 @@ def run_case(case):
             store_before = [sorted(repr(k) for k in o.subscriptions.entries()) for o in objs]
             t_arr = sim.now + m["dt"]
             sim.do_at(t_arr, prot.datagram_received, sd_bytes(wire_entries, sid, reboot=True), src, mc)
+            nxt = msgs_[mi + 1] if mi + 1 < len(msgs_) else None
+            if coll and nxt is not None and nxt["dt"] < coll and not mc and not nxt["mc"] and ADDRS[nxt["src"] % 2] == src:
+                # the next message of this subscriber arrives while the answers to this one still wait in the send
+                # collector: both messages are judged together
+                carry_exp.update(expected)
+                carry_opt.update(optional)
+                carry_t.append(t_arr)
+                feats["within-collection-window"] += 1
+                continue
+            expected.update(carry_exp)
+            optional.update(carry_opt)
+            t_first = min(carry_t + [t_arr])
+            carry_exp.clear()
+            carry_opt.clear()
+            del carry_t[:]
             sim.advance(coll + 0.0005 if coll else 0.0)
             got = [e for e in sent_entries(prot.transport, n0) if e["type"] == wire.SUBSCRIBE_ACK]
             others = [e for e in sent_entries(prot.transport, n0) if e["type"] not in (wire.SUBSCRIBE_ACK, wire.OFFER)]
@@ -173,12 +199,17 @@ def run_case(case):
             n0 = len(prot.transport.sent)
             if mc:
                 require(not got, "C11.multicast-answered", lambda: f"Subscribe received over multicast was answered: {got[:2]}")
-                require(len(log) == log0, "C11.multicast-state", lambda: f"Subscribe over multicast reached the listener: {log[log0:]}")
-                require(store_before == [sorted(repr(k) for k in o.subscriptions.entries()) for o in objs], "C11.multicast-state", "subscriptions changed by a multicast Subscribe")
+                if rebooted:
+                    # reboot evidence on the multicast channel legitimately ends this subscriber's subscriptions; the
+                    # Subscribe entries themselves must still do nothing
+                    require(all(c[2] == "unsubscribed" and c[4] == src for c in log[log0:]), "C11.multicast-state", lambda: f"Subscribe over multicast reached the listener: {log[log0:]}")
+                else:
+                    require(len(log) == log0, "C11.multicast-state", lambda: f"Subscribe over multicast reached the listener: {log[log0:]}")
+                    require(store_before == [sorted(repr(k) for k in o.subscriptions.entries()) for o in objs], "C11.multicast-state", "subscriptions changed by a multicast Subscribe")
                 continue
             for a in got:
                 require(a["dest"] == src, "C11.ack-destination", lambda: f"SubscribeAck {a} sent to {a['dest']}, the Subscribe came from {src}")
-                require(t_arr - RES <= a["t"] <= t_arr + coll + RES, "C11.ack-time", lambda: f"ack at {a['t']:.6f} for a message at {t_arr:.6f}")
+                require(t_first - RES <= a["t"] <= t_arr + coll + RES, "C11.ack-time", lambda: f"ack at {a['t']:.6f} for a message at {t_arr:.6f}")
             gotc = collections.Counter((a["service"], a["instance"], a["major"], a["eventgroup"], a["counter"], a["ttl"]) for a in got)
             extra = gotc - expected
             missing = expected - gotc
